@@ -112,6 +112,34 @@ Definition detect_tick (e : tick_env) (d : detector) : detector * tick_result :=
   | Some (fnum, fhash) => scan e fnum fhash (last (map fst (t_mem d)) 0) (e_errat e) (t_mem d) d
   end.
 
+(* the same scan cut at the moment the subscriber is notified: what has been done to the tracked set when
+   notifySubscriber is entered (headers that matched at or below the finalized block are gone; the reported block and
+   everything above it are STILL tracked, in memory and in the DB: the range is deleted only after ReorgProcessed) *)
+Fixpoint scan_pre (e : tick_env) (fnum fhash : N) (errat : option nat) (hs : list header) (d : detector)
+  : detector * tick_result :=
+  match hs with
+  | [] => (d, TNone)
+  | x :: rest =>
+    let n := fst x in
+    let cached := n =? fnum in
+    let fails := if cached then false else match errat with Some O => true | _ => false end in
+    let errat' := if cached then errat else match errat with Some (S k) => Some k | o => o end in
+    if fails then (d, TErr)
+    else match (if cached then Some fhash else e_hdr e n) with
+         | None => (d, TErr)
+         | Some c =>
+           if snd x =? c then
+             if n <=? fnum then scan_pre e fnum fhash errat' rest (det_remove n n d)
+             else scan_pre e fnum fhash errat' rest d
+           else (d, TReorg n)
+         end
+  end.
+Definition detect_pre (e : tick_env) (d : detector) : detector * tick_result :=
+  match e_fin e with
+  | None => (d, TErr)
+  | Some (fnum, fhash) => scan_pre e fnum fhash (e_errat e) (t_mem d) d
+  end.
+
 (* the header the tick uses for block n (cache or RPC), ignoring transient errors *)
 Definition look (e : tick_env) (n : N) : option N :=
   match e_fin e with
@@ -145,7 +173,11 @@ Inductive event :=
 | EHandleAll                   (* ... until the channel is empty *)
 | ETick (ferr : bool) (errat : option nat)   (* one detectReorgInTrackedList *)
 | ERestart                     (* node stopped and started again *)
-| ECrashMid.                   (* node stopped inside handleNewBlock after AddBlockToTrack, before ProcessBlock; started again *)
+| ECrashMid                    (* node stopped inside handleNewBlock after AddBlockToTrack, before ProcessBlock; started again *)
+| ECrashNotify (ferr : bool) (errat : option nat).
+                               (* one detectReorgInTrackedList during which the node is stopped after the mismatch was found
+                                  and the subscriber notified, before processor.Reorg has run (no ReorgProcessed, hence no
+                                  deletion of the tracked range); started again.  Without a mismatch: tick, then stop + start *)
 
 Definition set_world (s : sys) (w : world) : sys :=
   {| y_world := w; y_final := N.max (y_final s) (w_fin w); y_store := y_store s; y_det := y_det s; y_dl := y_dl s;
@@ -209,6 +241,10 @@ Definition do_crash_mid (s : sys) : sys :=
   | c :: _ => do_restart (set_det s (track c (y_det s)))
   end.
 
+Definition do_crash_notify (s : sys) (ferr : bool) (errat : option nat) : sys :=
+  let r := detect_pre (env_of (y_world s) ferr errat) (y_det s) in
+  do_restart (set_det s (fst r)).
+
 Definition step (cfg : config) (s : sys) (e : event) : sys :=
   match e with
   | EWorld w => set_world s w
@@ -218,6 +254,7 @@ Definition step (cfg : config) (s : sys) (e : event) : sys :=
   | ETick ferr errat => do_tick s ferr errat
   | ERestart => do_restart s
   | ECrashMid => do_crash_mid s
+  | ECrashNotify ferr errat => do_crash_notify s ferr errat
   end.
 Definition run (cfg : config) (s : sys) (es : list event) : sys := fold_left (step cfg) es s.
 
